@@ -149,6 +149,17 @@ func c17Chain(c *Ctx, r *Report) {
 			if x == transformCall {
 				return []Facts{f.Without("failed", "posted")}
 			}
+			// the post done by a helper: f(ch, err) whose body is a non-blocking send of err on ch
+			if ci, vi, blocking, ok := sendHelper(x.Call.StaticCallee()); ok && f.Has("failed") && errCh != nil &&
+				ci < len(x.Call.Args) && vi < len(x.Call.Args) && sameChan(x.Call.Args[ci], errCh) {
+				if blocking {
+					problems["blocking error send"] = c.Rel(x.Pos()) + ": the helper's error send is blocking"
+				}
+				if !FlowsFrom(x.Call.Args[vi], ErrValueOf(transformCall), 0) {
+					problems["wrong value"] = c.Rel(x.Pos()) + ": the value posted on the error channel is not Transform's error"
+				}
+				return []Facts{f.With("posted")}
+			}
 		case *ssa.Select:
 			if f.Has("failed") && errCh != nil && selectSendsOn(x, errCh) {
 				if x.Blocking {
@@ -1664,4 +1675,51 @@ func c17ExitMessages(c *Ctx, r *Report) {
 		}
 	}
 	r.Floor("R17.9", "failure-exit blocks", n, 20)
+}
+
+// sendHelper recognises a small function whose every path sends one of its
+// parameters on another (channel) parameter: returns the two parameter
+// indices and whether the send can block.
+func sendHelper(fn *ssa.Function) (chanIdx, valIdx int, blocking, ok bool) {
+	if fn == nil || fn.Blocks == nil || !IsModuleFunc(fn) {
+		return 0, 0, false, false
+	}
+	pidx := func(v ssa.Value) int {
+		for i, p := range fn.Params {
+			if p == v {
+				return i
+			}
+		}
+		return -1
+	}
+	for _, b := range fn.Blocks {
+		for _, in := range b.Instrs {
+			ci, vi, blk := -1, -1, false
+			switch x := in.(type) {
+			case *ssa.Select:
+				for _, st := range x.States {
+					if st.Dir == types.SendOnly {
+						ci, vi, blk = pidx(st.Chan), pidx(st.Send), x.Blocking
+					}
+				}
+			case *ssa.Send:
+				ci, vi, blk = pidx(x.Chan), pidx(x.X), true
+			default:
+				continue
+			}
+			if ci < 0 || vi < 0 {
+				continue
+			}
+			all := true
+			for _, rb := range fn.Blocks {
+				if _, isRet := rb.Instrs[len(rb.Instrs)-1].(*ssa.Return); isRet && !b.Dominates(rb) {
+					all = false
+				}
+			}
+			if all {
+				return ci, vi, blk, true
+			}
+		}
+	}
+	return 0, 0, false, false
 }
